@@ -1,10 +1,11 @@
--- driver for C09 (stub)
-def step (_line : String) : String := "bad-op"
+-- driver for C09: gcov intermediate text and gcov JSON readers (see GrcovModel/Drv/C09.lean)
+import GrcovModel.Drv.C09
+open Grcov.Drv
 
 partial def loop (h : IO.FS.Stream) (out : IO.FS.Stream) : IO Unit := do
   let line ← h.getLine
   if line.isEmpty then return ()
-  out.putStrLn (step line)
+  out.putStrLn (stepC09 line)
   loop h out
 
 def main : IO Unit := do
